@@ -298,18 +298,20 @@ impl MDBMinimalShard {
             proof { let k = file_callback.log@.len() - l0.len(); if k < sec.len() { assert(file_hdr_at(data0, file_pos(off, sec, k)) == sec[k]); } }
 //@ before `let n = header.num_entries as usize;`
         let ghost k = file_callback.log@.len() - l0.len(); let ghost lg = file_callback.log@;
-        proof { if k >= sec.len() { assert(false); } lemma_file_pos_step(off, sec, k); axiom_codec_file_hdr(header); }
+        // (tagged: a header that is not the bookend is a record of the section — the loop cannot run past the bookend)
+        proof { if k >= sec.len() { /*@C09*/ assert(false); } lemma_file_pos_step(off, sec, k); axiom_codec_file_hdr(header); }
 //@ before `file_callback.call(MDBFileInfoView::from_data_and_header(header, Arc::from(file_data), 0)?)?;`
         let ghost fd = file_data@; let ghost pc = reader.pos@;
         proof {
-            assert(n_bytes == 48 * following(header));
+            // (tagged: ties a value computed by the code to the value the contract speaks about — not a proof convenience)
+            /*@C09*/ assert(n_bytes == 48 * following(header));
             lemma_file_pos_ge(off, sec, k);
             assert(fd.len() == 48 + (pc - (file_pos(off, sec, k) + 48)));
         }
 //@ after `file_callback.call(MDBFileInfoView::from_data_and_header(header, Arc::from(file_data), 0)?)?;`
         proof {
-            assert(pc == file_pos(off, sec, k) + 48 + 48 * following(header));
-            assert(file_view_ok(file_callback.log@[l0.len() + k], data0, file_pos(off, sec, k), sec[k]));
+            /*@C09*/ assert(pc == file_pos(off, sec, k) + 48 + 48 * following(header));   // tagged: the reader consumed exactly the record
+            /*@C09*/ assert(file_view_ok(file_callback.log@[l0.len() + k], data0, file_pos(off, sec, k), sec[k]));   // tagged: the view handed to the callback is the record
             assert(file_callback.log@.subrange(0, l0.len() as int) =~= lg.subrange(0, l0.len() as int));
             assert forall|j: int| 0 <= j < file_callback.log@.len() - l0.len() implies file_view_ok(#[trigger] file_callback.log@[l0.len() + j], data0, file_pos(off, sec, j), sec[j]) by {
                 if j < k { assert(file_callback.log@[l0.len() + j] == lg[l0.len() + j]); }
@@ -353,18 +355,19 @@ impl MDBMinimalShard {
             proof { let k = cas_callback.log@.len() - l0.len(); if k < sec.len() { assert(cas_hdr_at(data0, cas_pos(off, sec, k)) == sec[k]); } }
 //@ before `let n_bytes = (header.num_entries as usize)`
         let ghost k = cas_callback.log@.len() - l0.len(); let ghost lg = cas_callback.log@;
-        proof { if k >= sec.len() { assert(false); } lemma_cas_pos_step(off, sec, k); axiom_codec_cas_hdr(header); }
+        proof { if k >= sec.len() { /*@C09*/ assert(false); } lemma_cas_pos_step(off, sec, k); axiom_codec_cas_hdr(header); }
 //@ before `cas_callback.call(MDBCASInfoView::from_data_and_header(header, Arc::from(cas_data), 0)?)?;`
         let ghost fd = cas_data@; let ghost pc = reader.pos@;
         proof {
-            assert(n_bytes == 48 * header.num_entries);
+            // (tagged: ties a value computed by the code to the value the contract speaks about — not a proof convenience)
+            /*@C09*/ assert(n_bytes == 48 * header.num_entries);
             lemma_cas_pos_ge(off, sec, k);
             assert(fd.len() == 48 + (pc - (cas_pos(off, sec, k) + 48)));
         }
 //@ after `cas_callback.call(MDBCASInfoView::from_data_and_header(header, Arc::from(cas_data), 0)?)?;`
         proof {
-            assert(pc == cas_pos(off, sec, k) + 48 + 48 * header.num_entries);
-            assert(cas_view_ok(cas_callback.log@[l0.len() + k], data0, cas_pos(off, sec, k), sec[k]));
+            /*@C09*/ assert(pc == cas_pos(off, sec, k) + 48 + 48 * header.num_entries);   // tagged: the reader consumed exactly the record
+            /*@C09*/ assert(cas_view_ok(cas_callback.log@[l0.len() + k], data0, cas_pos(off, sec, k), sec[k]));   // tagged: the view handed to the callback is the record
             assert(cas_callback.log@.subrange(0, l0.len() as int) =~= lg.subrange(0, l0.len() as int));
             assert forall|j: int| 0 <= j < cas_callback.log@.len() - l0.len() implies cas_view_ok(#[trigger] cas_callback.log@[l0.len() + j], data0, cas_pos(off, sec, j), sec[j]) by {
                 if j < k { assert(cas_callback.log@[l0.len() + j] == lg[l0.len() + j]); }
